@@ -99,7 +99,10 @@ Quoted(val, q) == IF q = 0 THEN val ELSE <<q>> \o val \o <<q>>
 ON == <<111, 110>>
 
 Breakouts == { <<>>, <<120, 62>>, <<120, 39, 62>>, <<120, 34, 62>>, <<120, 96, 62>>, <<45, 45, 62>>, <<120, 32>> }
-AttrBreakouts == { <<120, 32>>, <<120, 39, 32>>, <<120, 34, 32>>, <<120, 96, 32>>, <<>>, <<120, 39, 47>> }
+\* text that ends the value of the attribute the input is injected into: "x ", "x' ", ... and, without a
+\* separator after the closing quote (only the matching quoted context sees the attribute then), "x'", ...
+AttrBreakouts == { <<120, 32>>, <<120, 39, 32>>, <<120, 34, 32>>, <<120, 96, 32>>, <<>>, <<120, 39, 47>>,
+                   <<120, 39>>, <<120, 34>>, <<120, 96>>, <<39>>, <<34>>, <<96>> }
 
 NameForms(names) == UNION {UNION {NulForms(c) : c \in CaseForms(t)} : t \in names}
 CaseFormsOf(names) == UNION {CaseForms(t) : t \in names}
@@ -153,11 +156,21 @@ IsVecCase(c) ==
         c = [v |-> bo \o m, fam |-> "markup"]
 
 ----------------------------------------------------------------------------
+\* direct evaluation of the classifier predicates on names derived from the current lists and near misses
+NearNames(nm) == {nm, LowAscii(nm), Alt(nm), nm \o <<88>>, SubSeq(nm, 1, Len(nm) - 1), <<0>> \o nm, nm \o <<0>>,
+                  SubSeq(nm, 1, 1) \o <<0>> \o SubSeq(nm, 2, Len(nm)), <<88>> \o nm, ON \o nm, LowAscii(ON \o nm),
+                  SubSeq(nm, 1, Len(nm) - 1) \o <<196, 177>>, SubSeq(nm, 1, Len(nm) - 1) \o <<197, 191>>}
+CurNames == RangeOf(BlackTagSeq) \cup {a.name : a \in RangeOf(BlackAttrSeq)} \cup {a.name : a \in RangeOf(BlackEventSeq)}
+            \cup {SVG, XSL, XMLNS, XLINK, <<83, 86, 84>>, <<83, 86, 71, 88>>, <<88, 77, 76, 78, 83, 58, 88>>, <<79, 78>>, <<79>>, <<>>}
+IsPredCase(c) ==
+  \E nm \in CurNames : \E w \in NearNames(nm) : \E f \in {"tag", "attr"} : c = [v |-> w, fam |-> f]
+
 Init ==
   /\ stage = 0
   /\ \/ Mode = "dec" /\ \E w \in AllStrings \cup Templates : x = [v |-> w, fam |-> "dec"]
      \/ Mode = "url" /\ IsUrlCase(x)
      \/ Mode = "vec" /\ IsVecCase(x)
+     \/ Mode = "pred" /\ IsPredCase(x)
 Next == stage = 0 /\ stage' = 1 /\ UNCHANGED x
 Spec == Init /\ [][Next]_<<x, stage>>
 
@@ -173,10 +186,13 @@ Prop ==
   CASE Mode = "dec" -> DecoderContract
     [] Mode = "url" -> IsBlackURL(x.v)
     [] Mode = "vec" -> TRUE                        \* prediction exported; the real code decides
+    [] Mode = "pred" -> TRUE
 
 Export ==
   (DoExport /\ stage = 1) =>
     CASE Mode = "dec" -> PrintT(ToJson([in |-> x.v, r |-> RefValue(x.v)]))
       [] Mode = "url" -> PrintT(ToJson([in |-> x.v, fam |-> x.fam, pred |-> IsBlackURL(x.v)]))
       [] Mode = "vec" -> PrintT(ToJson([in |-> x.v, fam |-> x.fam, pred |-> IsXssSpec(x.v)]))
+      [] Mode = "pred" -> PrintT(ToJson([in |-> x.v, f |-> x.fam,
+                                         r |-> IF x.fam = "tag" THEN (IF IsBlackTag(x.v) THEN 1 ELSE 0) ELSE IsBlackAttr(x.v)]))
 ====
